@@ -215,6 +215,13 @@ func (w *world) apply(op Op) (r resolved, v *simcore.Violation) {
 			break
 		}
 		seg := path[first:]
+		if !w.finalOK(seg[0].idx) {
+			// a payload on a fork that does not contain the finalized / frozen block is never sent
+			// by the consensus layer (and the freezer deletes such forks behind BlockChain's caches)
+			r.skipped = true
+			note("payload node %d: fork does not contain the finalized block", target.idx)
+			break
+		}
 		if !bc.HasState(t.blockOf(seg[0].parent).Root()) {
 			// engine_newPayload only executes a payload whose parent state is available
 			// (otherwise the payload is stashed): eth/catalyst delayPayloadImport
@@ -254,6 +261,12 @@ func (w *world) apply(op Op) (r resolved, v *simcore.Violation) {
 		}
 		note("payload nodes %v (#%d..#%d)", r.blocks, seg[0].depth, seg[len(seg)-1].depth)
 		for _, n := range seg {
+			if bc.GetBlockByHash(n.block.Hash()) != nil {
+				// engine_newPayload answers VALID for a block it already has without executing it
+				// (eth/catalyst newPayload: GetBlockByHash short cut)
+				w.res.Probe("payload-block-already-known")
+				continue
+			}
 			var err error
 			if v = guard("InsertBlockWithoutSetHead", func() *simcore.Violation {
 				_, err = bc.InsertBlockWithoutSetHead(context.Background(), n.block, false)
@@ -268,9 +281,13 @@ func (w *world) apply(op Op) (r resolved, v *simcore.Violation) {
 			}
 		}
 		if cur := bc.CurrentBlock(); cur.Hash() != headBefore {
-			return r, viol("payload-moved-head", "InsertBlockWithoutSetHead changed CurrentBlock to #%d %x", cur.Number, cur.Hash().Bytes()[:4])
+			// not stated by C38 (the invariants below judge whatever chain results): counted only.
+			// Seen when a block of the batch is "known with state" (insertChain's known-block
+			// path calls writeKnownBlock even with setHead=false).
+			w.res.Probe("payload-moved-head")
+		} else {
+			w.res.Probe("payload-stored-without-head")
 		}
-		w.res.Probe("payload-stored-without-head")
 	case "setcanon":
 		var cands []int
 		for _, n := range t.nodes {
